@@ -447,19 +447,28 @@ Proof. exact thm_cap_all_or_nothing. Qed.
 Print Assumptions C05_cap_all_or_nothing.
 
 (** (c) WHICH of the two it is does not depend on the writing: the number of embeddings is the same for every insertion
-    order of the substrate and for every renumbering of substrate and pattern — so a search that is over the cap for one
-    writing is over the cap (and empty) for the other.  (Re-ordering of the PATTERN's node list: the count is compared
-    on every writing by the correspondence — [side_okb] contains it — not proved.) *)
+    order of the substrate, for every renumbering of substrate and pattern, and for ANY rewriting of both (renumbering
+    followed by re-ordering of node lists, bond lists and bond orientation of substrate AND pattern; premise: the four
+    matcher graphs are well formed, part of [side_okb]) — so a search that is over the cap for one writing is over the
+    cap, and empty, for every other writing.  (The bound of the component-aware search: invariant under renumbering,
+    [side_okb_c_relabel]; under re-ordering it is evaluated on every writing by the correspondence, not proved.) *)
 Theorem C05_cap_decision_invariant :
   (forall (host host' : hostg) (pat : molg), same_graph host host' ->
      C06_Model.lenN (enum_all host' pat) = C06_Model.lenN (enum_all host pat)) /\
   (forall (sg pi : N -> N), inj sg -> inj pi ->
    forall (host host' : hostg) (pat : molg), same_graph (relabel pi host) host' ->
      C06_Model.lenN (enum_all host' (relabel sg pat)) = C06_Model.lenN (enum_all host pat)) /\
+  (forall (sg pi : N -> N), inj sg -> inj pi ->
+   forall (host host'' : hostg) (pat pat'' : molg),
+     same_graph (relabel pi host) host'' -> same_graph (relabel sg pat) pat'' ->
+     gwf (host_c06 (relabel pi host)) -> gwf (pat_c06 (relabel sg pat)) -> gwf (host_c06 host'') -> gwf (pat_c06 pat'') ->
+     C06_Model.lenN (enum_all host'' pat'') = C06_Model.lenN (enum_all host pat)) /\
   (forall (TH : Thr) (sg pi : N -> N), inj sg -> inj pi ->
-   forall (host host' : hostg) (pat : molg), same_graph (relabel pi host) host' ->
+   forall (host host'' : hostg) (pat pat'' : molg),
+     same_graph (relabel pi host) host'' -> same_graph (relabel sg pat) pat'' ->
+     gwf (host_c06 (relabel pi host)) -> gwf (pat_c06 (relabel sg pat)) -> gwf (host_c06 host'') -> gwf (pat_c06 pat'') ->
      (thr_val < C06_Model.lenN (enum_all host pat))%N ->
-     matches 0%N host pat = [] /\ matches 0%N host' (relabel sg pat) = []).
+     matches 0%N host pat = [] /\ matches 0%N host'' pat'' = []).
 Proof. exact thm_cap_decision_invariant. Qed.
 Print Assumptions C05_cap_decision_invariant.
 
